@@ -14,10 +14,10 @@ struct Elem {
     size_t slot;
     struct cstl_heap_node hn;
 };
-enum Op { PUSH, POP, GET, CLEAR, AUDIT, NOPS };
-const char *OPN[] = {"push", "pop", "get", "clear", "audit"};
+enum Op { PUSH, POP, GET, CLEAR, AUDIT, SWAP, NOPS };
+const char *OPN[] = {"push", "pop", "get", "clear", "audit", "swap"};
 const uint8_t PROFILES[][NOPS] = {
-    {1, 1, 1, 1, 1}, {6, 2, 1, 0, 1}, {3, 4, 1, 0, 1}, {5, 5, 1, 1, 0}, {6, 1, 0, 2, 0}, /* fill */ {14, 1, 1, 0, 0},
+    {1, 1, 1, 1, 1, 1}, {6, 2, 1, 0, 1, 1}, {3, 4, 1, 0, 1, 0}, {5, 5, 1, 1, 0, 1}, {6, 1, 0, 2, 0, 0}, /* fill */ {14, 1, 1, 0, 0, 0},
 };
 const int NPROFILES = 6;
 const int KEYS[] = {1, 2, 3, 5, 16, 1000};
@@ -231,7 +231,7 @@ void vf_run(const uint8_t *data, size_t len)
     CaseCtx cx{};
     H.init("heap");
     HW.init("heap'");
-    bool twin = false;
+    bool twin = false, swapped = false;
     std::vector<uint8_t> tab;
     for (int o = 0; o < NOPS; o++) for (int k = 0; k < PROFILES[prof][o]; k++) tab.push_back((uint8_t)o);
     TRACE("header prios=%d cmp=%d maxlive=%zu profile=%d", K, g_cmp_kind, maxlive, prof);
@@ -247,6 +247,23 @@ void vf_run(const uint8_t *data, size_t len)
         bool shape = g_want_state ? my >= last_idx : (H.held.size() <= 40 || (H.held.size() <= 2000 ? (my % 16) == 15 : (my % 4096) == 4095));
         Obs oa, ob;
         bool first_clear = c15 && op == CLEAR && !twin;
+        if (op == SWAP) {
+            // the other heap object (used as the twin under C15, otherwise a second heap that pushes and pops reach only
+            // through swap): afterwards every promise about push / pop holds for the exchanged objects
+            if (c15) { CNT("noop.swap_c15"); continue; }
+            LIB(cstl_heap_swap(&H.h, &HW.h));
+            std::swap(H.held, HW.held);
+            std::swap(H.ranks, HW.ranks);
+            std::swap(H.all, HW.all);
+            swapped = true;
+            CNT("class.swap");
+            TRACE("swap heap <-> heap' (now %zu and %zu elements)", H.held.size(), HW.held.size());
+            if (H.held.size() + HW.held.size() <= 5000) {        // (the shape walk is O(n))
+                apply(H, cx, AUDIT, 0, 0, K, maxlive, nullptr, true);
+                apply(HW, cx, AUDIT, 0, 0, K, maxlive, nullptr, true);
+            }
+            continue;
+        }
         if (!twin && !first_clear) { apply(H, cx, op, a, b, K, maxlive, nullptr, shape); continue; }
         bool okA = model_ok([&] { apply(H, cx, op, a, b, K, maxlive, &oa, shape); }), okB;
         if (first_clear) {
@@ -283,8 +300,8 @@ void vf_run(const uint8_t *data, size_t len)
         if (twin) apply(HW, cx, POP, 0, 0, K, maxlive, nullptr, false);
     }
     apply(H, cx, CLEAR, 0, 0, K, maxlive, nullptr, false);
-    if (twin) apply(HW, cx, CLEAR, 0, 0, K, maxlive, nullptr, false);
-    CHECK(H.all.empty(), "C15.heap.once", "%zu elements never reached the clear callback", H.all.size());
+    if (twin || swapped) apply(HW, cx, CLEAR, 0, 0, K, maxlive, nullptr, false);
+    CHECK(H.all.empty() && (!swapped || HW.all.empty()), "C15.heap.once", "%zu elements never reached the clear callback", H.all.size() + HW.all.size());
     g_nontrivial = c15 ? (cx.clear3 && cx.reuse) : (cx.push_after_pop && cx.pop4ties);
     CNTN("ops", nops);
 }
